@@ -25,6 +25,9 @@ def nows(s):
     return "".join(s.split())
 
 
+LAST_LIB = {}      # the feature tables of the last generate_lib() call, for the witness search of C11
+
+
 def generate_lib():
     """GenLib.v: tables of sylvia's run-time library (sylvia/src). Returns coq text."""
     kv = fetch_raw("sylvia")
@@ -111,6 +114,7 @@ def generate_lib():
     schema_name = m.group(1)
     variant_feats = cosmos_variant_features()
     feat_table = sylvia_feature_table()
+    LAST_LIB.update({"arm_feats": arm_feats, "variant_feats": variant_feats, "feat_table": feat_table})
     cs = common.coq_string
     text = "\n".join([
         "(* GENERATED on every run by py/verif/translate.py from /repo/sylvia/src. Do not edit. *)",
